@@ -1,4 +1,5 @@
 """C14 -- the BK charset (DESIGN 4 C14)."""
+import json
 import random
 import common as C
 import impl
@@ -139,6 +140,7 @@ def explore(rep, br, tier, seed):
                         {"codepoints": s}, impl=r, replay="''.join(map(chr, codepoints)).encode('bk')")
     # end to end through the assembler
     e2e(rep, rng, acc, tier)
+    e2e_history(rep, rng, acc, tier)
     e2e_exhaustive(rep, acc, tier)
 
 
@@ -190,6 +192,62 @@ def e2e(rep, rng, acc, tier):
                 rep.violate(f"e2e:{kind}:{s}", "an unencodable character did not surface as an 'invalid-character' assembly error",
                             {"kind": kind, "codepoints": s}, impl={"outcome": o["outcome"], "code": o.get("code"), "errors": errs})
     rep.sample({"e2e": cases[0], "impl": {k: outs[0][k] for k in ("outcome", "code")}})
+
+
+def e2e_history(rep, rng, acc, tier):
+    """The refusal / the byte must come out on EVERY run, not only on the first one of a process, and whatever charset
+    earlier runs used: the same character data is assembled several times in this one process (fresh parse, fresh
+    Compiler each time, nothing reset in between), with runs under other charsets interleaved.  Every bk run is judged
+    against the table on its own.  (A value memoised per literal text -- across Compiler instances or across charsets --
+    turns the second refusal into a silent zero byte, or a KOI-8 byte into the UTF-8 one.)"""
+    accm = dict(acc)
+    good = [c for c in sorted(accm) if c >= 32 and chr(c) not in '"\\\n\r\t/\'' and c != 0x7f and not (0x80 <= c < 0xa0)]
+    cyr = [c for c in good if c >= 0x400]
+    bad = [0x20AC, 0x401, 0x2122, 0x3B1, 0x2603, 0x1F600]
+    n = 24 if tier == "quick" else 120
+    texts = []
+    for i in range(n):
+        k = rng.choice(["bad1", "good1", "cyr1", "mix2", "cyr2", "str"])
+        if k == "bad1":
+            texts.append(("char1", [rng.choice(bad)]))
+        elif k == "good1":
+            texts.append(("char1", [rng.choice(good)]))
+        elif k == "cyr1":
+            texts.append(("char1", [rng.choice(cyr)]))
+        elif k == "mix2":
+            texts.append(("char2", [rng.choice(good), rng.choice(bad)]))
+        elif k == "cyr2":
+            texts.append(("char2", [rng.choice(cyr), rng.choice(good)]))
+        else:
+            texts.append(("ascii", [rng.choice(good), rng.choice(bad + cyr), rng.choice(good)]))
+    schedule = ["bk", "bk", "utf-8", "bk", "koi8-r", "bk"] if tier == "quick" else ["utf-8", "bk", "bk", "latin-1", "bk", "koi8-r", "cp866", "bk", "bk"]
+    for kind, s in texts:
+        text = "".join(chr(c) for c in s)
+        src = {"char1": f".word '{text}\n", "char2": f'.word "{text}\n', "ascii": f'.ascii "{text}"\n'}[kind]
+        ok = all(c in accm for c in s)
+        exp = [accm[c] for c in s] if ok else None
+        if kind in ("char1", "char2") and ok:
+            exp = (exp + [0, 0])[:2]
+        for run, cs in enumerate(schedule):
+            o = impl.assemble([("t.mac", src)], charset=cs, reset=False)
+            if cs != "bk":
+                continue
+            rep.add_eval()
+            rep.nontrivial(("e2e-h", kind, tuple(s), run))
+            rep.count("e2e-history:" + kind + ":" + str(o["outcome"]))
+            errs = [d[1] for d in o["diags"] if d[0] != "warning"]
+            if ok:
+                if o["outcome"] != "ok" or list(bytes.fromhex(o["code"])) != exp:
+                    rep.violate(f"e2e-history:{kind}:bytes", "run %d of the same character data in one process (charsets of the runs: %s) did not give the bk bytes" % (run + 1, schedule[:run + 1]),
+                                {"kind": kind, "codepoints": s, "schedule": schedule[:run + 1], "source": src},
+                                impl={"outcome": o["outcome"], "code": o.get("code"), "errors": errs}, expected=exp)
+                    break
+            elif o["outcome"] != "failed" or "invalid-character" not in errs:
+                rep.violate(f"e2e-history:{kind}:accepted", "run %d of the same character data in one process (charsets of the runs: %s) accepted a character outside the bk table" % (run + 1, schedule[:run + 1]),
+                            {"kind": kind, "codepoints": s, "schedule": schedule[:run + 1], "source": src},
+                            impl={"outcome": o["outcome"], "code": o.get("code"), "errors": errs})
+                break
+    impl.reset_global_state()
 
 
 def _batch_job(args):
@@ -275,3 +333,57 @@ def e2e_exhaustive(rep, acc, tier):
     rep.count("e2e-exhaustive:outside-table code points", n_out)
     rep.count("e2e-exhaustive:inside-table code points", n_in)
     rep.exhaustive_parts.append(f"every code point below {hex(top)} (except literal-syntax characters and blanks) through .ascii" + ("" if tier == "quick" else ", .asciz and 'c") + " end to end")
+
+
+def replay(data):
+    """Re-execute a recorded violation against the current tree; True = the property holds on this input now."""
+    inp = data.get("input") or {}
+    dec, acc = impl_tables()
+    accm = dict(acc)
+    if "schedule" in inp and "source" in inp:                      # e2e_history
+        s = inp["codepoints"]
+        ok = all(c in accm for c in s)
+        exp = [accm[c] for c in s] if ok else None
+        if inp["kind"] in ("char1", "char2") and ok:
+            exp = (exp + [0, 0])[:2]
+        good = True
+        for run, cs in enumerate(inp["schedule"]):
+            o = impl.assemble([("t.mac", inp["source"])], charset=cs, reset=False)
+            if cs != "bk":
+                continue
+            errs = [d[1] for d in o["diags"] if d[0] != "warning"]
+            fine = (o["outcome"] == "ok" and list(bytes.fromhex(o["code"])) == exp) if ok else (o["outcome"] == "failed" and "invalid-character" in errs)
+            print(f"run {run + 1} ({cs}): outcome {o['outcome']} code {o.get('code')} errors {errs} -> {'as required' if fine else 'VIOLATES C14'}")
+            good = good and fine
+        return good
+    if "codepoints" in inp and "kind" in inp:                       # e2e
+        s, kind = inp["codepoints"], inp["kind"]
+        text = "".join(chr(c) for c in s)
+        src = {"ascii": f'.ascii "{text}"\n', "asciz": f'.asciz "{text}"\n', "char1": f".word '{text}\n", "char2": f'.word "{text}\n',
+               "char": "".join(".byte '%s\n" % chr(c) for c in s)}.get(kind)
+        if src is None:
+            print(json.dumps(data, indent=1, ensure_ascii=False)[:3000])
+            return False
+        o = impl.assemble([("t.mac", src)])
+        errs = [d[1] for d in o["diags"] if d[0] != "warning"]
+        ok = all(c in accm for c in s)
+        print("outcome", o["outcome"], "code", o.get("code"), "errors", errs)
+        if not ok:
+            return o["outcome"] == "failed" and "invalid-character" in errs
+        exp = [accm[c] for c in s]
+        if kind == "asciz":
+            exp.append(0)
+        if kind in ("char1", "char2"):
+            exp = (exp + [0, 0])[:2]
+        return o["outcome"] == "ok" and list(bytes.fromhex(o["code"])) == exp
+    if "codepoints" in inp:                                          # string encode
+        try:
+            r = "".join(map(chr, inp["codepoints"])).encode("bk")
+            print("encodes to", list(r))
+            return all(c in accm for c in inp["codepoints"]) and list(r) == [accm[c] for c in inp["codepoints"]]
+        except UnicodeEncodeError as ex:
+            print("refused:", ex)
+            return not all(c in accm for c in inp["codepoints"])
+    print(json.dumps(data, indent=1, ensure_ascii=False)[:3000])
+    print("table-level violation: re-run ./check C14")
+    return False
